@@ -276,6 +276,19 @@ func c17Record(md goldmark.Markdown, cs c17Case) (c17Obs, bool) {
 	if !ok {
 		return c17Obs{}, false
 	}
+	// very large tables: the per-cell alignment observation is dropped (row widths, the clause a
+	// size-dependent change breaks, are kept in full)
+	for i := range ts {
+		cells := 0
+		for _, n := range ts[i].Body {
+			cells += n
+		}
+		if cells > 20000 {
+			for r := range ts[i].BAlign {
+				ts[i].BAlign[r], ts[i].BFilled[r] = []string{}, []bool{}
+			}
+		}
+	}
 	o := c17Obs{Tables: ts, Expect: map[string]interface{}{"gen": false}}
 	if cs.Cand != nil {
 		o.Expect = map[string]interface{}{"gen": true, "istable": cs.Cand.IsTable, "d": len(cs.Cand.Aligns), "nrows": len(cs.Cand.Rows), "aligns": cs.Cand.Aligns}
@@ -353,6 +366,23 @@ func runC17(c *Ctx) {
 			d = d[:p] + soup[rng.Intn(len(soup))] + d[p:]
 		}
 		cases = append(cases, c17Case{Ext: exts[i%len(exts)], Doc: rawDoc(d)})
+	}
+	// tables of a size at which an implementation may start to economise: many columns, many short
+	// rows (every missing cell has to be supplied)
+	for _, dim := range [][2]int{{64, 40}, {300, 220}, {1024, 600}, {2100, 260}} {
+		cols, rows := dim[0], dim[1]
+		if !c.Thorough() && cols > 1100 {
+			continue
+		}
+		var b strings.Builder
+		b.WriteString(strings.Repeat("| h ", cols) + "|\n" + strings.Repeat("|---", cols) + "|\n")
+		for r := 0; r < rows; r++ {
+			b.WriteString("| x |\n")
+			if r%97 == 0 {
+				b.WriteString(strings.Repeat("| y ", cols+3) + "|\n") // a row that is too long
+			}
+		}
+		cases = append(cases, c17Case{Ext: "tableattr", Doc: rawDoc(b.String())})
 	}
 	mds := map[string]goldmark.Markdown{}
 	for _, e := range exts {
